@@ -45,6 +45,8 @@ def rule_lines(rules, ind=0):
             s += " %ignore_case"
         if r.get("comment"):
             s += " %comment=" + r["comment"]
+        if r.get("force_commit"):
+            s += " %force_commit"
         out.append(s)
         out += rule_lines(r["children"], ind + 4)
     return out
@@ -93,6 +95,12 @@ class Ctx:
 
 def is_block(r):
     return bool(r["children"])
+
+
+def blockish(ctx, r, row):
+    """the row has children rules: its governing rule has some, or another local rule that matches the row too (a childless specific
+    rule listed before the generic block rule: the first match governs, the children rules of all matching rules apply)"""
+    return is_block(r) or bool(ctx.child(r, row).local)
 
 
 def valued_block(r):
@@ -150,6 +158,12 @@ def gen_rules(rnd, depth=0, heads=None, opts=None):
                 # a key-less block whose header carries a value (bgp 65000 -> bgp 65100): replaced by undo + re-creation
                 rules.append(rule([h], kids, logic="common.undo_redo"))
             else:
+                if opts.get("overlap", True) and "*" in toks and lg is None and rnd.random() < 0.12:
+                    # a childless rule for ONE key listed BEFORE the generic block rule: it governs that row (first match), while the
+                    # children rules of the generic rule still apply to the lines below it
+                    spec0 = list(toks)
+                    spec0[spec0.index("*")] = rnd.choice(WORDS[:4])
+                    rules.append(rule(spec0, []))
                 rules.append(rule(toks, kids, logic=lg))
                 if opts.get("overlap", True) and "*" in toks and rnd.random() < 0.25:
                     # an overlapping, more specific rule for one concrete key (after the generic one): the first match governs,
@@ -184,6 +198,9 @@ def gen_rules(rnd, depth=0, heads=None, opts=None):
             if ic:
                 toks = [t for t in toks if t != "~"]
             rules.append(rule(toks, logic=lg, icase=ic))
+            if opts.get("force_commit") and depth >= 1 and lg is None and not ic and rnd.random() < 0.3 and \
+                    not any(x.get("force_commit") for x in rules):
+                rules[-1]["force_commit"] = True      # (at most one per block: its own 'commit' line follows it in the patch)
             if opts.get("comments") and rnd.random() < 0.4:
                 rules[-1]["comment"] = "!!note-" + h     # shown after the command when comments are requested; never part of the command
     if depth == 0 and opts.get("globals", True) and rnd.random() < 0.4:
@@ -210,7 +227,7 @@ def gen_tree(rnd, ctx, unknown=0.0, _rw=0):
                 continue
             seen.add(k)
             # no foreign rows inside %ordered blocks: a moved block is removed and re-created, which cannot preserve lines annet does not know
-            if is_block(r):
+            if blockish(ctx, r, row):
                 prev_same = [t[x] for x in t if ctx.classify(x) and ctx.classify(x)[0] is r and t[x]]
                 if prev_same and rnd.random() < 0.3:
                     t[row] = to_odict(plain(rnd.choice(prev_same)))     # sibling blocks with the same content
@@ -250,7 +267,7 @@ def mutate(rnd, ctx, tree, unknown=0.0):
             seen.add((r["id"], key))
             out[row] = mutate(rnd, ctx.child(r, row), ch, 0.0) if x < 0.6 else to_odict(plain(ch))
             continue
-        if x < 0.55 and not is_block(r):
+        if x < 0.55 and not blockish(ctx, r, row):
             if fully_keyed(r):
                 row2 = row
             elif r["toks"][-1] != "~" and rnd.random() < 0.8:
@@ -270,7 +287,7 @@ def mutate(rnd, ctx, tree, unknown=0.0):
         row2 = row
         if valued_block(r) and rnd.random() < 0.4:
             row2 = " ".join(row.split(" ")[:len(r["toks"])] + [rnd.choice(WORDS)])   # same key, new header value
-        out[row2] = mutate(rnd, ctx.child(r, row2), ch, 0.0 if r.get("ordered") else unknown) if is_block(r) else odict()
+        out[row2] = mutate(rnd, ctx.child(r, row2), ch, 0.0 if r.get("ordered") else unknown) if blockish(ctx, r, row2) else odict()
     for row, ch in gen_tree(rnd, ctx, unknown).items():
         k = ctx.ident(row)
         if k is None:
